@@ -101,6 +101,43 @@ VlogRtClauses(pre, c, out, post, ret, r) ==
     ELSE <<>>
 
 ---------------------------------------------------------------------------
+(* EBLIF (C18): flat designs.  ECanon keeps the top model's ports, the instances (name = .cname, model,    *)
+(* statement type, parameters) and the nets AS SETS OF PINS (net names are not compared: .conn merges and  *)
+(* the writer's generated names change them), and the declared primitive models with port directions.      *)
+EInfoOf(d) ==      \* a design says type through k ("g" = .gate) and .param INIT through props
+    IF d.eb # NoVal THEN d.eb
+    ELSE "type=" \o (IF d.k = "g" THEN "gate" ELSE IF d.k = "l" THEN "latch" ELSE "subckt") \o ";cname=" \o d.name
+         \o (IF d.props = NoVal THEN "" ELSE ";param:INIT=" \o d.props)
+ETop(s, n) == s.instRef[s.nlTop[n]]
+EPinsOfWire(s, w) == {EndpointOf(s, r) : r \in {rr \in SeqSet(s.wirePins[w]) : rr.k \in {"i", "o"}}}
+ECanon(s, n) ==
+    LET top == ETop(s, n) IN
+    [name  |-> s.defData[top].name,
+     ports |-> {PortCanon(s, p) : p \in SeqSet(s.defPorts[top])},
+     insts |-> {[name |-> s.instData[i].name, model |-> NameOfD(s, s.instRef[i]), info |-> EInfoOf(s.instData[i])] :
+                   i \in SeqSet(s.defKids[top])},
+     nets  |-> {g \in {EPinsOfWire(s, w) : w \in UNION {SeqSet(s.cabWires[c]) : c \in SeqSet(s.defCables[top])}} : g # {}},
+     prims |-> {[name |-> s.defData[d].name,
+                 ports |-> {[name |-> s.portData[p].name, dir |-> s.portAttr[p].dir, width |-> Len(s.portPins[p])] :
+                               p \in SeqSet(s.defPorts[d])}] :
+                   d \in {s.instRef[i] : i \in SeqSet(s.defKids[top])} \ {None}}]
+(* undeclared primitives come back with undefined directions: compare without the directions then *)
+ECanonNoDirs(ec) == [ec EXCEPT !.prims = {[p EXCEPT !.ports = {}] : p \in @}]   \* undeclared models: ports are only inferred from use
+EblifReadClauses(pre, c, out, post, ret) ==
+    IF c.op = "eblif_read" THEN
+      << <<"C18_Accepted", out = "ok">>,
+         <<"C18_Exact", (out = "ok" /\ Len(ret) = 1) =>
+               IF c.opts.declare = "all" THEN ECanon(post, ret[1]) = ECanon(pre, c.n)
+               ELSE ECanonNoDirs(ECanon(post, ret[1])) = ECanonNoDirs(ECanon(pre, c.n))>>,
+         <<"C18_WF", (out = "ok" /\ Len(ret) = 1) => (WF(post) /\ SelfContained(post, ret[1]))>> >>
+    ELSE <<>>
+EblifRtClauses(pre, c, out, post, ret, r) ==
+    IF c.op = "eblif_rt" THEN
+      << <<"C18_RoundTripAccepted", out = "ok" /\ r.reader_accepts>>,
+         <<"C18_RoundTrip", (out = "ok" /\ r.reader_accepts /\ Len(ret) = 1) => ECanon(post, ret[1]) = ECanon(pre, c.n)>> >>
+    ELSE <<>>
+
+---------------------------------------------------------------------------
 (* C17 - identifiers the EDIF writer assigned: legal, and distinct ignoring case among siblings.      *)
 (* idc[kind][x] = the characters of EDIF.identifier of element x after the export.                     *)
 LowerLetters == {"a","b","c","d","e","f","g","h","i","j","k","l","m","n","o","p","q","r","s","t","u","v","w","x","y","z"}
